@@ -240,6 +240,13 @@ func PropC10(c *vs.Case, f Factory, kind string) error {
 		scn.Cfg.ParentSelector = map[string]string{"enabled": "yes"}
 		metaOfMap(scn.Parent)["labels"] = map[string]any{"enabled": "yes"}
 	}
+	if c.Prob(1, 3) {
+		// someone else's finalizer keeps a deleted parent around after ours is gone
+		m := metaOfMap(scn.Parent)
+		fs, _ := m["finalizers"].([]any)
+		m["finalizers"] = append(fs, "example.com/hold")
+		c.Class("parent-with-foreign-finalizer")
+	}
 	// directed arm: a rollout in progress when the parent gets deleted, with finalize answers
 	// that differ per revision ("several live revisions with differing finalized")
 	var script []int
